@@ -26,6 +26,14 @@ namespace MEDDLY {
     class hash_stream;
 };
 
+#if defined(MEDDLY_VERIF) && defined(MEDDLY_VERIF_HASHLOG)
+// verification hook: report every word fed to a hash_stream
+extern "C" void vp_hashlog(unsigned v);
+#define MEDDLY_VERIF_HLOG(v) vp_hashlog(v)
+#else
+#define MEDDLY_VERIF_HLOG(v)
+#endif
+
 // #define DEBUG_HASH
 
 /**
@@ -172,6 +180,7 @@ class MEDDLY::hash_stream {
 #ifdef DEBUG_HASH
         printf("    push %u\n", v);
 #endif
+        MEDDLY_VERIF_HLOG(v);
         if (slot) {
           slot--;
           z[slot] += v;
@@ -185,6 +194,7 @@ class MEDDLY::hash_stream {
 #ifdef DEBUG_HASH
         printf("    push %u, %u\n", v1, v2);
 #endif
+        MEDDLY_VERIF_HLOG(v1); MEDDLY_VERIF_HLOG(v2);
         switch (slot) {
             case 0:
                 mix();
@@ -219,6 +229,7 @@ class MEDDLY::hash_stream {
 #ifdef DEBUG_HASH
         printf("    push %u, %u, %u\n", v1, v2, v3);
 #endif
+        MEDDLY_VERIF_HLOG(v1); MEDDLY_VERIF_HLOG(v2); MEDDLY_VERIF_HLOG(v3);
         switch (slot) {
             case 0:
                 mix();
